@@ -18,14 +18,11 @@
 (* case space, judges the observations of the real PathMatch::match and     *)
 (* lets TLC check the laws stated at the end of this module.                *)
 (***************************************************************************)
-EXTENDS Integers, Sequences, FiniteSets
+EXTENDS Integers, Sequences, FiniteSets, SequencesExt   \* SequencesExt: Last, Front, ToSet, SetToSeq
 
 Sep   == "/"
 Dot   == <<".">>
 DotDot == <<".", ".">>
-
-Last(s)  == s[Len(s)]
-Front(s) == SubSeq(s, 1, Len(s) - 1)
 
 RECURSIVE Flatten(_, _)
 \* Flatten(<<c1,...,cn>>, first) = c1 / c2 / ... / cn   (a separator before every component but the first)
@@ -92,12 +89,13 @@ PathString(t, base) == IF IsAbs(t) THEN t ELSE Join(base, t)
 
 (***************************************************************************)
 (* The language of a canonical pattern (a set of strings, given by its      *)
-(* membership predicate):                                                   *)
-(*    L(empty) = {empty}            L(c p)  = c L(p)    for a literal c      *)
-(*    L(? p)   = (Char \ {/}) L(p)                                           *)
-(*    L(* p)   = (Char \ {/})* L(p)                                          *)
-(*    L(** p)  = Char* L(p)                                                  *)
-(* A run of three or more stars denotes Char* under every way of reading it.*)
+(* membership predicate), with NS = any character but the separator:        *)
+(*    L[empty]  = {empty}                                                   *)
+(*    L[c p]    = c L[p]             for a literal character c              *)
+(*    L[? p]    = NS L[p]                                                   *)
+(*    L[star p] = NS^n L[p]          for any n >= 0                         *)
+(*    L[star star p] = Char^n L[p]   for any n >= 0                         *)
+(* A run of three or more stars denotes Char^n under every way of reading.  *)
 (***************************************************************************)
 NoSep(r, k) == \A n \in 1..k : r[n] # Sep
 Drop(r, k)  == SubSeq(r, k + 1, Len(r))
@@ -123,9 +121,12 @@ InLang(p, r) ==
 (*    (only possible with an empty base path) it may also start the path.   *)
 (* lax = TRUE additionally lets a free pattern start at the very start of   *)
 (* a rooted path (in front of the root separator, where the root            *)
-(* directory's empty name sits); the documentation does not decide this.    *)
+(* directory's empty name sits) and lets a match end with the root          *)
+(* separator itself ("up until a path separator" read inclusively, so that  *)
+(* the pattern '/' names the root directory and matches everything below);  *)
+(* the documentation does not decide these two points.                      *)
 (***************************************************************************)
-EndOK(t, j) == j = Len(t) \/ t[j + 1] = Sep
+EndOK(t, j, lax) == j = Len(t) \/ t[j + 1] = Sep \/ (lax /\ j = 1 /\ t[1] = Sep)
 StartOK(t, i, real, lax) ==
   IF real THEN i = 1
   ELSE \/ (i > 1 /\ t[i - 1] = Sep)
@@ -134,7 +135,7 @@ StartOK(t, i, real, lax) ==
 MatchIn(pc, t, real, lax) ==
   \E i \in 1..(Len(t) + 1) :
      /\ StartOK(t, i, real, lax)
-     /\ \E j \in (i - 1)..Len(t) : EndOK(t, j) /\ InLang(pc, SubSeq(t, i, j))
+     /\ \E j \in (i - 1)..Len(t) : EndOK(t, j, lax) /\ InLang(pc, SubSeq(t, i, j))
 
 (***************************************************************************)
 (* Trailing separator: "the final path component of the pattern only        *)
@@ -155,37 +156,42 @@ DirOfSep(t) ==
 (***************************************************************************)
 (* Verdict of match(pattern, path, base, mode): "T", "F" or "Open".         *)
 (* mode: "reg" (regular file) or "dir" (directory).                         *)
+(* The verdict depends on the pattern only through PatInfo and on the path  *)
+(* only through PathInfo (the judge evaluates each distinct pair once).     *)
 (***************************************************************************)
-Must(p, t, base, mode) ==
-  LET ps   == PatString(p, base)
-      pc   == Canon(ps)
-      tc   == Canon(PathString(t, base))
-      real == IsReal(p)
-  IN IF Trailing(p) /\ mode = "reg" THEN MatchIn(pc, DirOf(tc), real, FALSE)
-     ELSE MatchIn(pc, tc, real, FALSE)
+PatInfo(p, base) ==
+  LET ps == PatString(p, base) IN
+  [pc    |-> Canon(ps),            \* canonical pattern
+   real  |-> IsReal(p),            \* absolute or relative: anchored at the start of the path
+   trail |-> Trailing(p),          \* ended with a separator before canonicalisation
+   \* outside the documented domain: no pattern, a pattern that denotes nothing after
+   \* canonicalisation, an unresolvable '..' in a rootless pattern
+   undoc |-> (p = <<>> \/ Canon(ps) = <<>> \/ Loose(ps))]
 
-May(p, t, base, mode) ==
-  LET ps   == PatString(p, base)
-      pc   == Canon(ps)
-      tc   == Canon(PathString(t, base))
-      real == IsReal(p)
-  IN IF Trailing(p) /\ mode = "reg"
-     THEN MatchIn(pc, DirOf(tc), real, TRUE) \/ MatchIn(pc, DirOfSep(tc), real, TRUE)
-     ELSE MatchIn(pc, tc, real, TRUE)
+PathInfo(t, base) ==
+  LET ts == PathString(t, base) IN
+  [tc |-> Canon(ts), undoc |-> Loose(ts)]
 
-\* outside the documented domain: no pattern, a pattern that denotes nothing after canonicalisation,
-\* an unresolvable '..' in a rootless pattern or path
-Undocumented(p, t, base) ==
-  \/ p = <<>>
-  \/ Canon(PatString(p, base)) = <<>>
-  \/ Loose(PatString(p, base))
-  \/ Loose(PathString(t, base))
+MustI(pi, ti, mode) ==
+  IF pi.trail /\ mode = "reg" THEN MatchIn(pi.pc, DirOf(ti.tc), pi.real, FALSE)
+  ELSE MatchIn(pi.pc, ti.tc, pi.real, FALSE)
 
-Verdict(p, t, base, mode) ==
-  IF Undocumented(p, t, base) THEN "Open"
-  ELSE IF Must(p, t, base, mode) THEN "T"
-  ELSE IF May(p, t, base, mode) THEN "Open"
+MayI(pi, ti, mode) ==
+  IF pi.trail /\ mode = "reg"
+  THEN MatchIn(pi.pc, DirOf(ti.tc), pi.real, TRUE) \/ MatchIn(pi.pc, DirOfSep(ti.tc), pi.real, TRUE)
+  ELSE MatchIn(pi.pc, ti.tc, pi.real, TRUE)
+
+VerdictI(pi, ti, mode) ==
+  IF pi.undoc \/ ti.undoc THEN "Open"
+  ELSE IF MustI(pi, ti, mode) THEN "T"
+  ELSE IF MayI(pi, ti, mode) THEN "Open"
   ELSE "F"
+
+Must(p, t, base, mode)    == MustI(PatInfo(p, base), PathInfo(t, base), mode)
+May(p, t, base, mode)     == MayI(PatInfo(p, base), PathInfo(t, base), mode)
+Verdict(p, t, base, mode) == VerdictI(PatInfo(p, base), PathInfo(t, base), mode)
+Undocumented(p, t, base)  == PatInfo(p, base).undoc \/ PathInfo(t, base).undoc
+RootPattern(p, base)      == PatInfo(p, base).pc = <<Sep>>
 
 (***************************************************************************)
 (* Laws of the definition (checked by TLC in PathMatchMC for all strings up *)
@@ -200,12 +206,13 @@ Strings(A, n) == IF n = 0 THEN {<<>>}
 CompStarts(s) == {i \in 1..(Len(s) + 1) : i = 1 \/ s[i - 1] = Sep}
 Insert(s, i, x) == SubSeq(s, 1, i - 1) \o x \o SubSeq(s, i, Len(s))
 
-\* the re-spellings of s: './', '/' or 'x/../' inserted where a component starts ('/' not in front of
-\* everything: that would make a root), a separator or '/.' appended
+\* the re-spellings of s: './', '/' or 'x/../' inserted where a component starts (not in front of a
+\* rooted or empty string: that would change what the string is relative to), '/' or '/.' appended
+NotFirst(s) == IF s = <<>> \/ IsAbs(s) THEN {1} ELSE {}
 Respellings(s) ==
-  {Insert(s, i, <<".", Sep>>) : i \in CompStarts(s) \ (IF s = <<>> \/ IsAbs(s) THEN {1} ELSE {})}
+  {Insert(s, i, <<".", Sep>>) : i \in CompStarts(s) \ NotFirst(s)}
     \cup {Insert(s, i, <<Sep>>) : i \in CompStarts(s) \ {1}}
-    \cup {Insert(s, i, <<"x", Sep, ".", ".", Sep>>) : i \in CompStarts(s) \ (IF s = <<>> \/ IsAbs(s) THEN {1} ELSE {})}
+    \cup {Insert(s, i, <<"x", Sep, ".", ".", Sep>>) : i \in CompStarts(s) \ NotFirst(s)}
     \cup (IF s = <<>> THEN {} ELSE {s \o <<Sep>>, s \o <<Sep, ".">>})
 
 \* L1 canonical forms are normal forms, canonicalisation is idempotent and blind to re-spelling
@@ -215,10 +222,11 @@ LawCanon(S) ==
     /\ IsAbs(Canon(s)) = IsAbs(s)
     /\ \A c \in {CanonComps(s)[k] : k \in DOMAIN CanonComps(s)} : c # <<>> /\ c # Dot /\ (c = DotDot => Loose(s))
     /\ (Len(Canon(s)) > 1 => Last(Canon(s)) # Sep)
+    /\ \A k \in 1..(Len(Canon(s)) - 1) : ~(Canon(s)[k] = Sep /\ Canon(s)[k + 1] = Sep)
     /\ \A r \in Respellings(s) : Canon(r) = Canon(s)
 
 \* L2 the verdict does not depend on how the path or the pattern is spelled (a trailing separator of the
-\*    pattern is significant, so it is not among the pattern re-spellings that must be neutral)
+\*    pattern and its class are significant, so re-spellings that change them are not required to be neutral)
 LawRespell(P, T, B) ==
   \A p \in P, t \in T, base \in B, mode \in {"reg", "dir"} :
     /\ \A t2 \in Respellings(t) : IsAbs(t2) = IsAbs(t) => Verdict(p, t2, base, mode) = Verdict(p, t, base, mode)
@@ -227,33 +235,33 @@ LawRespell(P, T, B) ==
             => Verdict(p2, t, base, mode) = Verdict(p, t, base, mode)
 
 \* L3 widening a wildcard never loses a match: '?' -> '*', '*' -> '**'
-Widen(p) == {Insert(SubSeq(p, 1, i - 1) \o SubSeq(p, i + 1, Len(p)), i, <<"*">>) : i \in {k \in DOMAIN p : p[k] = "?"}}
+Widen(p) == {SubSeq(p, 1, i - 1) \o <<"*">> \o SubSeq(p, i + 1, Len(p)) : i \in {k \in DOMAIN p : p[k] = "?"}}
               \cup {Insert(p, i, <<"*">>) : i \in {k \in DOMAIN p : p[k] = "*"}}
 LawWiden(P, T, B) ==
   \A p \in P, t \in T, base \in B, mode \in {"reg", "dir"} :
-    Must(p, t, base, mode) => \A q \in Widen(p) : IsRelPattern(q) = IsRelPattern(p) => Must(q, t, base, mode)
+    Must(p, t, base, mode) => \A q \in Widen(p) : Must(q, t, base, mode)
 
 \* L4 a pattern without wildcards is a comparison of canonical forms: absolute/relative = the pattern's
-\*    components are a prefix of the path's, free = they occur as a contiguous run
+\*    components are a prefix of the path's, free = they occur in it as a contiguous run
 IsLiteral(p) == \A k \in DOMAIN p : p[k] \notin {"*", "?"}
-PrefixAt(pc, tc, k) == Len(tc) >= k + Len(pc) /\ SubSeq(tc, k + 1, k + Len(pc)) = pc
+RunAt(pc, tc, k) == Len(tc) >= k + Len(pc) /\ SubSeq(tc, k + 1, k + Len(pc)) = pc
 LawLiteral(P, T, B) ==
   \A p \in P, t \in T, base \in B :
-    (IsLiteral(p) /\ ~Trailing(p) /\ ~Undocumented(p, t, base) /\ IsAbs(Canon(PathString(t, base)))) =>
+    (IsLiteral(p) /\ ~Trailing(p) /\ ~Undocumented(p, t, base) /\ ~RootPattern(p, base)
+       /\ IsAbs(PathString(t, base))) =>
       LET pc == CanonComps(PatString(p, base))
           tc == CanonComps(PathString(t, base))
       IN Must(p, t, base, "reg") =
-           IF IsReal(p) THEN IsAbs(PatString(p, base)) /\ PrefixAt(pc, tc, 0)
-           ELSE \E k \in 0..Len(tc) : PrefixAt(pc, tc, k)
+           IF IsReal(p) THEN IsAbs(PatString(p, base)) /\ RunAt(pc, tc, 0)
+           ELSE \E k \in 0..Len(tc) : RunAt(pc, tc, k)
 
 \* L5 a pattern that matches a directory matches everything below it (this is what lets the file lister
-\*    prune ignored directories), and mode matters only for patterns with a trailing separator
+\*    prune ignored directories); mode matters only for patterns with a trailing separator; Must => May
 LawBelow(P, T, B) ==
   \A p \in P, t \in T, base \in B :
-    /\ (t # <<>> /\ Last(t) # Sep /\ Must(p, t, base, "dir")) =>
+    /\ (t # <<>> /\ Last(t) # Sep /\ ~RootPattern(p, base) /\ ~Undocumented(p, t, base) /\ Must(p, t, base, "dir")) =>
           \A mode \in {"reg", "dir"} : Must(p, t \o <<Sep, "x">>, base, mode)
     /\ ~Trailing(p) => Verdict(p, t, base, "reg") = Verdict(p, t, base, "dir")
-    /\ Must(p, t, base, "reg") => Must(p, t, base, "dir")
-    /\ Must(p, t, base, "reg") => May(p, t, base, "reg")
-    /\ Must(p, t, base, "dir") => May(p, t, base, "dir")
+    /\ Must(p, t, base, "reg") => May(p, t, base, "dir")
+    /\ \A mode \in {"reg", "dir"} : Must(p, t, base, mode) => May(p, t, base, mode)
 =============================================================================
